@@ -125,6 +125,18 @@ def monitor(case, il, sl):
             return ("read call %d: frames handed on so far %s are not a prefix of the frames in the byte stream %s" % (k, handed, want_prefix), "c06-order")
         if rl.startswith("res ok "):
             delivered += int(rl.split()[2])
+            # a call reads until the transport would block: every byte that has arrived (the chunks
+            # of this call up to its first wb / end of script) is taken in, so that every frame whose
+            # last byte has arrived is handed on now (readiness is edge-triggered: nobody calls again)
+            avail = 0
+            for e in calls[k]:
+                if not e.startswith("c:") or e == "c:-":
+                    break
+                avail += len(e[2:]) // 2
+            if int(rl.split()[2]) < avail and not any(e in ("eof", "err") or e == "c:-" for e in calls[k]):
+                missing = [str(r[1]) for r in ref if r[2] and delivered < r[0] <= delivered - int(rl.split()[2]) + avail]
+                return ("read call %d returned after %s of the %d bytes that had arrived (no would-block in between); frames %s whose last byte had arrived were not handed on" % (
+                    k, rl.split()[2], avail, missing), "c06-not-drained")
             inside = [str(r[1]) for r in ref if r[0] <= delivered and r[2]]
             if handed != inside:
                 return ("read call %d: after %d bytes the frames wholly received are %s but %s were handed on" % (k, delivered, inside, handed), "c06-prompt")
